@@ -80,9 +80,30 @@ def one(rng):
     return conn_case(B, 1, segs, scripts, rs, ws, rng.choice([0, 1])), tags
 
 
+def direct_request_case(rng):
+    """the async Request built BY HAND through the public constructors (the embedding application parses the preamble itself), for a
+    Filter optionally with the Data stream selected on the stream parser before wrapping: the request is writeable at construction
+    exactly for roles with at most one input stream - never because of what was selected -, reads deliver the selected stream, and
+    Request::close called by the application itself ends the request"""
+    role = rng.choice([1, 2, 3, 3, 3])
+    rid = rng.choice([1, 9])
+    recs = minimal_preamble(rid, role, flags=rng.choice([0, 1]), pairs=rand_pairs(rng, 1, 8))
+    contents = {t: [rng.randrange(256) for _ in range(rng.choice([0, 1, 30, 90]))] for t in ROLE_STREAMS[role]}
+    recs += streams_part(rng, rid, role, contents, junk_rate=0.2, no_begin=True)
+    pre = DATA if role == 3 and rng.random() < 0.6 else 0
+    h = gen_handler(rng, role)
+    if pre:
+        h = [op for op in h if op[0] != "set"]
+    B = rng.choice([64, 256, 8192])
+    return conngen.req_new_case(B, 1, flat(recs), h, C07.io_script(rng, 200, "r"), C07.io_script(rng, 60, "w"), rng.choice([0, 1]), pre), \
+        ["reads", "direct-request"] + (["preselected"] if pre else [])
+
+
 def gen_cases(rng, tier):
     for _ in range(1200 if tier == "quick" else 60000):
         yield one(rng)
+    for _ in range(200 if tier == "quick" else 8000):
+        yield direct_request_case(rng)
     for _ in range(30 if tier == "quick" else 1000):
         yield gate_probe_case(rng)
 
@@ -92,10 +113,34 @@ def nontrivial(line, tags):
 
 
 def min_classes(tier):
-    return {"mixed": 400, "switch": 400, "zero-read": 200, "gate-probe": 30}
+    return {"mixed": 400, "switch": 400, "zero-read": 200, "gate-probe": 30, "direct-request": 200, "preselected": 40}
+
+
+def oracle_direct(line, impl_line):
+    """req_new lines: the gate at construction depends on the role alone; the rest is the correspondence with the model"""
+    mode, a = parse_case(line)
+    o = parse_out(impl_line)
+    if o is None or o[0] == [18446744073710440504]:
+        return "crashed or panicked"
+    if o[0] == [3]:
+        return True
+    wire = a[3]
+    rr, _ = parse_records(wire)
+    b = [r for r in rr if r[0] == BEGIN][0]
+    role = b[2][0] * 256 + b[2][1]
+    first = [r for r in o[3:] if r and r[0] == 300]
+    if not first:
+        return "no construction event"
+    wr = first[0][1]
+    if wr != (1 if len(ROLE_STREAMS[role]) <= 1 else 0):
+        return ("Request::new reports is_writeable() = %d for role %d: a request is writeable at construction exactly when its role has at most "
+                "one input stream, whatever stream was selected on the parser before" % (wr, role))
+    return True
 
 
 def oracle(line, impl_line):
+    if line.startswith("req_new "):
+        return oracle_direct(line, impl_line)
     o = parse_out(impl_line)
     if o is None or o[0] == [18446744073710440504]:
         return "connection task crashed or panicked"
